@@ -6,7 +6,7 @@
 (* only the SET of entries is compared with the real table (dict order of   *)
 (* the table is not observable through any property).                       *)
 (***************************************************************************)
-EXTENDS Impl
+EXTENDS Impl, ReshapeImpl
 
 \* calc_phase_permutation (symmetries.py:185-225): move-to-front counting, as written
 RECURSIVE CPPLoop(_, _, _, _, _)
@@ -174,5 +174,25 @@ IFEinsum(x, lhs, rhs) ==
       perm == SetToSortSeq(1..Rank(x), lt)
       y == IPhaseSync(IFTranspose(x, perm, TRUE))
   IN IEinsum(y, [i \in 1..Len(perm) |-> lhs[perm[i]]], rhs)
+
+---------------------------------------------------------------------------
+\* reshape (abelian_core.py:2092-2165): the plan of the axis-matching routine (ReshapeImpl) executed with the
+\* array's own unfuse / fuse / expand_dims, one after the other
+SubSizesOf(x) ==
+  [i \in 1..Rank(x) |-> IF IsFused(x.ix[i]) THEN [j \in 1..Len(SubIxs(x.ix[i])) |-> SizeTotal(SubIxs(x.ix[i])[j])] ELSE <<>>]
+ReshapePlan(x, newshape) == CalcReshapeArgs(ShapeOf(x), newshape, SubSizesOf(x))
+RUnfuse(x, ax0) == IF IsFermi(x) THEN IFUnfuse(x, ax0 + 1) ELSE IUnfuse(x, ax0 + 1)
+RFuse(x, grouping0) ==
+  LET g == [k \in 1..Len(grouping0) |-> [q \in 1..Len(grouping0[k]) |-> grouping0[k][q] + 1]]
+  IN IF IsFermi(x) THEN IFFuse(x, g) ELSE IFuseCore(x, g)
+RExpand(x, ax0) ==
+  LET p == ax0 + 1
+      d == ExpandDual(x, p, [x |-> 0])
+  IN IF IsFermi(x) THEN IFExpand(x, p, Zero, d) ELSE IExpand(x, p, Zero, d)
+IReshape(x, newshape) ==
+  LET m == ReshapePlan(x, newshape)
+      a == FoldLeft(LAMBDA acc, e : RUnfuse(acc, e), x, m.unfuse)
+      b == FoldLeft(LAMBDA acc, e : RFuse(acc, e), a, m.fuse)
+  IN FoldLeft(LAMBDA acc, e : RExpand(acc, e), b, m.expand)
 
 =============================================================================
